@@ -20,7 +20,7 @@ PROPS = {
     "C02": dict(l1_ops=["exp", "hat"], l2="C02", n_l1=(400, 8000), n_l2=(600, 20000)),
     "C03": dict(l1_ops=["log", "exp"], l2="C03", n_l1=(400, 8000), n_l2=(800, 20000)),
     "C05": dict(l1_ops=["exp", "log", "inverse", "compose", "between", "rplus", "lplus", "rminus",
-                        "lminus", "act"], l2="C05", n_l1=(120, 2500), n_l2=(40, 800), l1_masks=True,
+                        "lminus", "act"], l2="C05", n_l1=(240, 2500), n_l2=(40, 800), l1_masks=True,
                 ),
     "C06": dict(l1_ops=["rjac", "ljac", "rjacinv", "ljacinv", "smallAdj", "adj"], l2="C06",
                 n_l1=(300, 6000), n_l2=(240, 6000)),
